@@ -734,7 +734,8 @@ func loopDesc(h *ssa.BasicBlock) string {
 }
 
 func isRangeHeader(b *ssa.BasicBlock) bool {
-	return strings.HasPrefix(b.Comment, "rangeindex.loop") || strings.HasPrefix(b.Comment, "rangeiter.loop") || strings.HasPrefix(b.Comment, "rangeint.loop")
+	// go/ssa labels the blocks of range loops; `for range n` is rotated so its back edge targets the body block
+	return strings.HasPrefix(b.Comment, "rangeindex.loop") || strings.HasPrefix(b.Comment, "rangeiter.loop") || strings.HasPrefix(b.Comment, "rangeint.loop") || strings.HasPrefix(b.Comment, "rangeint.body")
 }
 
 func rangeOverScriptSized(b *ssa.BasicBlock) bool { return false }
